@@ -136,7 +136,7 @@ def main(argv: list[str]) -> int:
             raise MachineryError("too few behaviours emitted for %s/%d" % (shape, n))
     # ---- real runs
     jobs = []
-    base_variants = [[{}, {2: 1}, {1: 1}], [{1: 1}, {}, {3: 1}], [{}, {4: 1}, {4: 0, 6: 1}]]
+    base_variants = [[{}, {2: 1}, {1: 1}], [{1: 1}, {}, {3: 1}], [{}, {4: 1}, {4: 0, 6: 1}], [{}, {1: 1}, {}], [{2: 1}, {2: 1, 1: 1}, {2: 1}]]
     blocker_variants = [[{}, {2: 2}, {}], [{3: 2}, {}, {1: 1}], [{2: 3, 3: 2}, {2: 3}, {}], [{1: 3}, {1: 3, 6: 2}, {1: 3}]]
     per = 6 if tier == "quick" else 60
     for (shape, n), pols in sorted(policies.items()):
@@ -146,9 +146,10 @@ def main(argv: list[str]) -> int:
                          "policies": [pols[2 * i], pols[2 * i + 1]]})
         for i, bv in enumerate(blocker_variants):     # deterministic: blockers in parallel mode
             jobs.append({"shape": shape, "n": n, "store": "fs", "variants": bv, "policies": [pols[0], pols[1]]})
-    named = ["impl-first", "iface-first", "reverse"]
+    named = ["impl-first", "iface-first", "reverse", "burst", "burst"]
     for i, name in enumerate(named):
-        jobs.append({"shape": "diamond", "n": 3, "store": "fs", "variants": base_variants[i % 3], "policies": [{"name": name}, {"name": named[(i + 1) % 3]}]})
+        jobs.append({"shape": ("diamond", "fan", "chain")[i % 3], "n": 3 if i % 2 == 0 else 2, "store": "fs", "variants": base_variants[i % len(base_variants)],
+                     "policies": [{"name": name}, {"name": named[(i + 1) % len(named)]}]})
     if tier == "thorough":
         for n in (1, 4, 6, 8):
             for i, name in enumerate(named):
